@@ -1,5 +1,6 @@
 import Gimli.Lemmas.ReaderKinds
 import Gimli.Lemmas.ReaderViews
+import Gimli.Lemmas.Leb
 import Gimli.Model.Utf8
 /-!
 # C10 — Readers are faithful zero-copy views; all reader kinds behave identically
@@ -128,6 +129,23 @@ theorem views_are_views_nts (c r c' : Cur) (h : Dflt.readNts sliceCore c = (.ok 
       ∃ hi : idx < c.bytes.length, c.bytes[idx] = 0 ∧ ∀ j (hj : j < idx), c.bytes[j]'(by omega) ≠ 0 := by
   obtain ⟨idx, hp, h1, h2, h3⟩ := Slice.readNts_ok h
   exact ⟨idx, h1, h2, h3, position_spec hp⟩
+
+/-- **`read_uleb128` through a reader is the C09 decoder on the reader's window**: the value is the
+mathematical value of exactly one LEB128 number `pre` at the front of the window (all of C09's
+`uleb_sound` carries over), and the reader continues right behind it, still a view of the same
+section. -/
+theorem views_are_views_uleb (c c' : Cur) (v : Nat) (hinv : c.Inv)
+    (h : Dflt.readUleb sharedCore c = (.ok v, c')) :
+    ∃ pre, c.bytes = pre ++ c'.bytes ∧ Spec.IsLebEnc pre ∧ pre.length ≤ 10 ∧ v = Spec.ulebVal pre ∧
+      c'.sec = c.sec ∧ c'.off = c.off + pre.length ∧ c'.len = c.len - pre.length := by
+  obtain ⟨rest, hf, hsec, hbytes, hoff, hlen⟩ := via_ok Leb.unsigned _ c c' v hinv
+    (fun v rest hv => by
+      obtain ⟨pre, hp, _⟩ := Leb.unsigned_sound _ v rest hv
+      exact ⟨pre, hp⟩) h
+  obtain ⟨pre, hp, henc, hl10, hv, _⟩ := Leb.unsigned_sound _ v rest hf
+  have hl : c.bytes.length = c.len := Cur.bytes_length hinv
+  have hpl : pre.length + rest.length = c.len := by rw [← hl, hp]; simp
+  exact ⟨pre, by rw [hbytes]; exact hp, henc, hl10, hv, hsec, by omega, by omega⟩
 
 /-- **Along every history** every reader in the table — hence every sub-reader ever returned by
 `split`, `clone` or `read_null_terminated_slice`, since each is entered into the table — is
